@@ -3,6 +3,7 @@ C16 — Link-format documents produced by the writer parse back to the same
 content.  Model: Model/LinkFormat.lean (writer with a sink that never fails,
 then the parser).
 -/
+import CoapLite.Lemmas.Shape.Api
 import CoapLite.Lemmas.LinkRoundtrip
 import CoapLite.Lemmas.Shape.Link
 import CoapLite.Lemmas.Shape.Global
@@ -47,5 +48,12 @@ theorem state_shape_matches_source :
     Shapes.linkAttributeParser = [("inner", "&str")] ∧
     Shapes.unquote = [("inner", "Chars"), ("state", "UnquoteState")] :=
   ⟨ShapeTie.no_global_state, ShapeTie.linkFormatWrite, ShapeTie.linkAttributeWrite, ShapeTie.linkFormatParser, ShapeTie.linkAttributeParser, ShapeTie.unquote⟩
+
+/-- the public entry points of the modelled source files – re-read from /repo/src on every run – are
+exactly the ones the model was written against (`Lemmas/Shape/Api.lean`): a new public way to change the
+state this property is about, or a receiver that became `&mut self`, breaks this theorem -/
+theorem api_surface_matches_source :
+    Shapes.apiLinkFormat = ShapeTie.expectedApiLinkFormat :=
+  ShapeTie.apiLinkFormat
 
 end CoapLite.C16
